@@ -162,27 +162,12 @@ fn groups(bs: &[LeafBatch]) -> Vec<&[LeafBatch]> {
     out
 }
 
-/// C27 allvalid_list_over_nullable_items: a list layer without null / empty lists above a layer that has definition levels
-fn k_allvalid_list(layers: &[Layer]) -> bool {
-    layers.iter().enumerate().any(|(i, l)| l.kind == Kind::List && !has_def(l) && layers[i + 1..].iter().any(has_def))
-}
-/// C27 list_of_nullable_struct_repdef (F21): a struct with nulls below a list that has null or empty lists
-fn k_list_nullable_struct(layers: &[Layer]) -> bool {
-    layers.iter().enumerate().any(|(i, l)| l.kind == Kind::List && has_def(l) && layers[i + 1..].iter().any(|x| x.kind == Kind::Struct && x.nulls))
-}
-
 impl Features {
     fn structural(&self) -> bool {
         self.version != LanceFileVersion::V2_0
     }
     fn any_leaf(&self, f: impl Fn(&[LeafBatch]) -> bool) -> bool {
         self.leaves.values().any(|bs| f(bs))
-    }
-    pub fn in_list_of_nullable_struct(&self) -> bool {
-        self.structural() && self.any_leaf(|bs| groups(bs).iter().any(|g| k_list_nullable_struct(&group(g))))
-    }
-    pub fn in_allvalid_list(&self) -> bool {
-        self.structural() && self.any_leaf(|bs| groups(bs).iter().any(|g| k_allvalid_list(&group(g))))
     }
     /// C27 composite_allvalid_item_outside_list: more than one page; an item layer outside every list is
     /// all-valid in one page and has nulls in another; there is a list below it
@@ -227,12 +212,8 @@ pub fn classify(f: &Features, fail: &Failure) -> Option<&'static str> {
     if dup_first_row(f, fail) {
         return Some("Known_C25_v20_take_repeats_first_row_of_page");
     }
-    if f.in_list_of_nullable_struct() {
-        return Some("list_of_nullable_struct_repdef");
-    }
-    if f.in_allvalid_list() {
-        return Some("allvalid_list_over_nullable_items");
-    }
+    // (C27 list_of_nullable_struct_repdef and allvalid_list_over_nullable_items were repaired in /repo
+    //  (d90c193, acc257d): all stacks to depth 3 round-trip on one page, no predicate for them here)
     if f.in_complex_all_null() {
         return Some("complex_all_null_page_rows_as_levels");
     }
